@@ -416,12 +416,16 @@ fn maybe_create_scmp_reply(
         .try_classify()
         .context("can't classify SCION packet for SCMP response")?;
 
-    match classify {
-        ClassifiedPacketView::Scmp(scmp_view) if scmp_view.scmp().message().is_error() => {
+    if let ClassifiedPacketView::Scmp(scmp_view) = classify {
+        let message = scmp_view.scmp().message();
+        // SCMP types 0..=127 are error messages, including the ones this implementation does not
+        // know.
+        let unknown_error =
+            matches!(message, ScmpMessageView::Unknown(unknown) if unknown.message_type() < 128);
+        if message.is_error() || unknown_error {
             // Don't reply to SCMP Error Messages
             return Ok(None);
         }
-        _ => {}
     }
 
     let packet_src = respond_to
